@@ -160,7 +160,7 @@ def customFlatten (reg : Reg) (co : CustomOut) (rs : List (Except Err FlatOut)) 
     Except Err FlatOut :=
   if co.numOut != 2 && co.numOut != 3 then .error .runtime
   else match co.children with
-    | Option.none => .error .runtime     -- pybind11 cast_error: not iterable
+    | Option.none => .error .type_       -- TypeError: object is not iterable
     | some _ =>
       match seqOuts rs with
       | .error e => .error e
@@ -300,7 +300,7 @@ def customFlattenP (reg : Reg) (co : CustomOut) (rsInt : List (Except Err FlatOu
     match entries with
     | .absent | .noneVal =>
         match co.children with
-        | Option.none => .error .runtime
+        | Option.none => .error .type_
         | some _ =>
           match seqOutsP rsInt with
           | .error e => .error e
@@ -309,7 +309,7 @@ def customFlattenP (reg : Reg) (co : CustomOut) (rsInt : List (Except Err FlatOu
     | .nonIter => .error .type_
     | .tuple ks =>
         match co.children with
-        | Option.none => .error .runtime
+        | Option.none => .error .type_
         | some _ =>
           let arity := ks.length
           match seqOutsP ((rsEnt ks).take arity) with
